@@ -42,9 +42,13 @@ def scen_join(rng):
     base = rng.sample(names[:4], k)
     lines = ["s_%s = T(%r)%s" % (n, n, ".as_('al_%s')" % n if rng.random() < 0.25 else "") for n in names]
     lines.append("sub = Query.from_(T('q')).select('a', 'b')")
+    # sources of other kinds that are NOT part of the statement: an aliased sub-query, a named query never declared by with_()
+    lines.append("stray = Query.from_(T('q2')).select('a', 'b').as_('p')")
     ids = {n: i for i, n in enumerate(names)}
     ids["sub"] = 9
     ids["cte"] = 8
+    ids["stray"] = 10
+    ids["ghost"] = 11
     known = []
     if stmt == "update":
         head = "%s.update(s_%s)" % (qn, base[0])
@@ -71,7 +75,7 @@ def scen_join(rng):
     n_extra = rng.randint(1, 2)
     for _ in range(n_extra):
         if rng.random() < 0.35:
-            outsider = [n for n in names if n not in pool and n != item]
+            outsider = [n for n in names if n not in pool and n != item] + ["stray", "ghost"]
             crit_tabs.append(rng.choice(outsider) if outsider else rng.choice(pool))
         else:
             crit_tabs.append(rng.choice(pool))
@@ -82,6 +86,10 @@ def scen_join(rng):
             return "sub"
         if n == "cte":
             return "AliasedQuery('cte')"
+        if n == "stray":
+            return "stray"
+        if n == "ghost":
+            return "AliasedQuery('ghost')"
         return "s_%s" % n
     terms = ["%s.c%d" % (ref(n), i) for i, n in enumerate(crit_tabs)]
     if tableless:
